@@ -7,6 +7,10 @@ import PetgraphModel.Proofs.C20PageRank
 import PetgraphModel.Proofs.C20Dsatur
 import PetgraphModel.Proofs.C20PathsModel
 import PetgraphModel.Proofs.C20TredModel
+import PetgraphModel.Proofs.C20W2Fas
+import PetgraphModel.Proofs.C20W2Dsatur
+import PetgraphModel.Proofs.C20W2Tred
+import PetgraphModel.Proofs.C20W2Paths
 /-
 C20 — cliques, colouring, feedback arcs, reduction/closure, simple paths, Steiner tree, PageRank.
 
@@ -69,6 +73,14 @@ def C20_fas_total_statement : Prop :=
 /-- proved part: on the empty edge list there is nothing to look up (and the sequence is empty). -/
 theorem C20_fas_total_partial : Fas.goodSequence [] = [] := by decide
 
+/-- **`good_node_sequence` is total** (wave 2): every endpoint of every edge gets a position, so the
+`node_seq[&…]` look-ups of `greedy_feedback_arc_set` never miss.  Proof (`Proofs/C20W2Fas*.lean`): the
+buckets stay consistent with the nodes' flags and degrees (`Fas.Inv`), so popping the head of a bucket
+really removes it; the number of flagged nodes is the fuel measure of the drains and of the main loop;
+the loop stops only when every bucket is empty, i.e. when no node is flagged, and every unflagged node
+has been written to the sequence. -/
+theorem C20_fas_total : C20_fas_total_statement := fun edges => Fas.goodSequence_total edges
+
 /-- soundness of the per-run judge: an accepted answer consists of distinct edges of the (directed)
 graph, contains every self-loop, and the remaining graph has no closed walk. -/
 theorem C20_fas_judge_sound (g : MGraph) (removed : List Nat) (h : judgeFas g removed = none) :
@@ -113,6 +125,15 @@ def C20_dsatur_bipartite_statement : Prop :=
        (Dsatur.adjColours g (Dsatur.greedy g (order.take i)) order[i]).eraseDups.length)) →
     Dsatur.count (Dsatur.greedy g order) ≤ 2
 
+/-- **DSatur is exact on bipartite graphs, whatever the heap's tie-breaking** (wave 2): with ANY pop
+order that respects the saturation rule (the picked node has the most distinct neighbour colours among
+the nodes still to come) a bipartite graph gets at most two colours.  The order need not even cover all
+nodes.  Proof (`Proofs/C20W2Dsatur.lean`): the colouring always equals the bipartition up to a swap bit
+that is constant on the components of the subgraph induced by the order; the saturation rule makes a
+node picked with saturation 0 start a fresh component. -/
+theorem C20_dsatur_bipartite : C20_dsatur_bipartite_statement :=
+  fun g order hd hb hnd hsat => Dsatur.greedy_bipartite g order hd hb hnd hsat
+
 theorem C20_dsatur_bipartite_partial :
     Dsatur.count (Dsatur.greedy ⟨false, [0, 1, 2, 3], [⟨0, 0, 1, 1⟩, ⟨1, 1, 2, 1⟩, ⟨2, 2, 3, 1⟩]⟩ [1, 0, 2, 3]) = 2 := by
   decide
@@ -153,6 +174,42 @@ def C20_tred_toposorted_statement : Prop :=
     let rows := (Tred.toposorted v.pred id v.g.nodes.length topo).1
     rows.length = topo.length ∧ (∀ i, ascending (rows.getD i []) = true) ∧
     ∀ i x, (rows.getD i []).count x = (v.g.edges.filter fun e => topo.idxOf e.src = i ∧ topo.idxOf e.tgt = x).length
+
+/-- the statement above is FALSE as written: nothing in it forces the edges to end at listed nodes.
+Witness: the single node `0` with an edge `0 → 5`; the toposort `[0]` satisfies every hypothesis
+(`idxOf 0 = 0 < 1 = idxOf 5`), the only row is empty, but the edge count for `(i, x) = (0, 1)` is 1.
+(The real function is only ever handed the graph's own toposort; the harness' graphs have no dangling
+edges, so this is a gap of the statement, not of petgraph.) -/
+theorem C20_tred_toposorted_statement_false_witness : ¬ C20_tred_toposorted_statement := by
+  intro h
+  have h1 := h { g := ⟨true, [0], [⟨0, 0, 5, 1⟩]⟩, nb := 1, ix := [], out := [], inn := [(5, [(0, 0)])] } [0]
+    rfl (by decide) (fun _ => Iff.rfl)
+    (by
+      intro a
+      by_cases h5 : a = 5
+      · subst h5; decide
+      · have h5' : (a == 5) = false := by simpa using h5
+        have h5'' : ¬ 5 = a := fun e => h5 e.symm
+        simp [View.pred, View.innOf, List.lookup, h5', MGraph.pred, h5'']
+        decide)
+    (by decide) (by decide)
+  have h2 := h1.2.2 0 1
+  revert h2
+  decide
+
+/-- **`dag_to_toposorted_adjacency_list` is the input graph renumbered by the toposort** (wave 2; the
+statement above with the missing hypothesis added: every edge ends at a listed node): one row per node,
+every row ascending, row `i` lists `x` exactly once per edge from the `i`-th to the `x`-th node of the
+toposort (parallel edges counted).  Proof: `Proofs/C20W2Tred.lean`. -/
+theorem C20_tred_toposorted (v : View) (topo : List Nat) (hd : v.g.directed = true) (hnd : topo.Nodup)
+    (hmem : ∀ x, x ∈ topo ↔ x ∈ v.g.nodes) (hpred : ∀ a, sameSet (v.pred a) (v.g.pred a) = true)
+    (hfwd : ∀ e ∈ v.g.edges, topo.idxOf e.src < topo.idxOf e.tgt)
+    (hsmall : ∀ x ∈ v.g.nodes, x < v.g.nodes.length)
+    (htgt : ∀ e ∈ v.g.edges, e.tgt ∈ v.g.nodes) :
+    let rows := (Tred.toposorted v.pred id v.g.nodes.length topo).1
+    rows.length = topo.length ∧ (∀ i, ascending (rows.getD i []) = true) ∧
+    ∀ i x, (rows.getD i []).count x = (v.g.edges.filter fun e => topo.idxOf e.src = i ∧ topo.idxOf e.tgt = x).length :=
+  Tred.toposorted_correct v topo hd hnd hmem hpred hfwd hsmall htgt
 
 theorem C20_tred_toposorted_partial :
     Tred.toposorted (fun a => if a = 2 then [0, 1] else if a = 1 then [0] else []) id 3 [0, 1, 2] =
@@ -204,6 +261,24 @@ def C20_paths_model_complete_statement : Prop :=
     g.directed = true → EndpointsOk g → g.nodes.Nodup → a ≠ b → a ∈ g.nodes → b ∈ g.nodes →
     Paths.allSimplePaths g.succ g.nodes.length a b lo hi fuel = some out →
     (∀ p, IsSimplePathIn g a b lo hi p → p ∈ out) ∧ (simpleB g = true → out.Nodup)
+
+/-- **completeness of the mirrored iterator** (wave 2): run to exhaustion it yields every simple path
+within the bounds, and on a simple graph every path once.  Proof (`Proofs/C20W2Paths.lean`): every
+call of `next` keeps "yielded or still pending" for every specified path (`Paths.Pend`), an exhausted
+iterator has an empty stack where nothing is pending; pending-ness only shrinks, and a yielded path
+is not pending afterwards because the remaining children of a level are duplicate-free on a simple
+graph and never contain the child that was descended into. -/
+theorem C20_paths_model_complete : C20_paths_model_complete_statement :=
+  fun g a b lo hi fuel out hd hg _ hab ha _ h => Paths.allSimplePaths_complete g a b lo hi fuel out hd hg hab ha h
+
+/-- soundness and completeness together: the mirrored iterator yields EXACTLY the specified paths. -/
+theorem C20_paths_model_exact (g : MGraph) (a b lo : Nat) (hi : Option Nat) (fuel : Nat) (out : List (List Nat))
+    (hd : g.directed = true) (hg : EndpointsOk g) (hab : a ≠ b) (ha : a ∈ g.nodes)
+    (h : Paths.allSimplePaths g.succ g.nodes.length a b lo hi fuel = some out) :
+    (∀ p, p ∈ out ↔ IsSimplePathIn g a b lo hi p) ∧ (simpleB g = true → out.Nodup) :=
+  ⟨fun p => ⟨Paths.allSimplePaths_sound g a b lo hi hab _ fuel out h p,
+      (Paths.allSimplePaths_complete g a b lo hi fuel out hd hg hab ha h).1 p⟩,
+    (Paths.allSimplePaths_complete g a b lo hi fuel out hd hg hab ha h).2⟩
 
 theorem C20_paths_model_complete_partial :
     Paths.allSimplePaths (MGraph.succ ⟨true, [0, 1, 2], [⟨0, 0, 1, 1⟩, ⟨1, 1, 2, 1⟩, ⟨2, 0, 2, 1⟩]⟩) 3 0 2 0 none 100
